@@ -166,7 +166,7 @@ func c01NegotiateFeatures(c *cx, nf *eng.Fn, call *ast.CallExpr) (firstParam str
 					}
 				}
 				nref++
-				c.r.Check("C01.1", nf, "refusal edge of "+pat, "refusal returns a non-nil error and never runs the feature", g.Blocks[ce.E.B].Nodes[len(g.Blocks[ce.E.B].Nodes)-1].Pos(), bad == "", bad)
+				c.r.Check("C01.1", nf, "refusal edge of "+pat, "refusal returns a non-nil error and never runs the feature", edgePos(g, nf, ce.E.B), bad == "", bad)
 			}
 		}
 		c.r.Floor("C01.1", "refusal edges", nref, 1)
